@@ -24,6 +24,7 @@ import os
 import random
 import struct
 import time
+from itertools import chain as itertools_chain
 
 import numpy as np
 
@@ -724,6 +725,94 @@ def oracle_low_T(stream, tier="quick"):
         yield key, bad
 
 
+# --- T = 0 cells of tiny size; very low non-zero temperature, sub-ohmic -------------------------
+
+def _x_minus_sin(x):
+    return np.where(np.abs(x) < 0.5,
+                    x ** 3 / 6 * (1 - x ** 2 / 20 * (1 - x ** 2 / 42 * (1 - x ** 2 / 72))), x - np.sin(x))
+
+
+def eta_T0_reference(obj, t):
+    """eta(t) at T = 0 by composite Gauss-Legendre of J/w^2 [2 sin^2(wt/2) - i (wt - sin wt)]
+    (cancellation-free for small w t)"""
+    def J(w):
+        return np.asarray(obj.spectral_density(w), dtype=float)
+    return complex(freq_integral(lambda w: J(w) / w ** 2 * (2 * np.sin(w * t / 2) ** 2 - 1j * _x_minus_sin(w * t)),
+                                 [], obj.cutoff, obj.cutoff_type, 0.25 * obj.cutoff))
+
+
+TINY_POINTS = [(0.3, 1.0, 2.0, "exponential"), (0.5, 3.0, 1.0, "hard")]
+LOWEST_T_POINTS = [
+    # alpha, zeta, wc, cutoff type, T/wc, compare C(0) with the closed form?
+    (0.3, 0.1, 1.0, "exponential", 5e-5, True),
+    (0.3, 0.5, 2.0, "exponential", 5e-5, True),
+    (0.3, 0.1, 1.0, "hard", 5e-5, False),
+    (0.3, 0.5, 1.0, "gaussian", 1e-5, False),
+]
+
+
+def oracle_tiny_and_cold(stream, tier="quick"):
+    from scipy import special
+    from oqupy.bath_correlations import PowerLawSD
+    # (a) T = 0, delta * cutoff in {1e-3, 1e-4, 1e-5}: real and imaginary part separately (1e-4;
+    #     unchanged code <= 2e-6, limited by the cancellation in exp(-ix) - 1 + ix itself)
+    for (alpha, zeta, wc, ct) in TINY_POINTS:
+        with stream("tiny cells"):
+            obj = PowerLawSD(alpha, zeta, wc, ct, 0.0)
+            bad = None
+            for dw in (1e-3, 1e-4, 1e-5):
+                d = dw / wc
+                for (shape, t1, t2) in [("upper-triangle", 0.0, None), ("square", d, None),
+                                        ("rectangle", 2 * d, 2.6 * d)]:
+                    v = complex(obj.correlation_2d_integral(d, t1, t2, shape))
+                    r = complex(exact_cell(lambda t: eta_T0_reference(obj, t), lambda t: 0.0, shape, d, t1, t2))
+                    if abs(v.real - r.real) > 1e-4 * abs(r.real) or abs(v.imag - r.imag) > 1e-4 * abs(r.imag):
+                        bad = {"shape": shape, "delta": d, "delta*cutoff": dw, "time_1": t1, "time_2": t2,
+                               "library": [v.real, v.imag], "independent": [r.real, r.imag]}
+                        break
+                if bad:
+                    break
+        key = "T = 0, cells with delta*cutoff <= 1e-3 vs an independent frequency integral (%s cutoff)" % ct
+        if bad is not None:
+            bad.update({"class": "PowerLawSD", "alpha": alpha, "zeta": zeta, "cutoff": wc, "cutoff_type": ct,
+                        "temperature": 0.0,
+                        "how": "obj.correlation_2d_integral(delta, time_1, time_2, shape) vs the cell formed from "
+                               "eta(t) = int J/w^2 [2 sin^2(wt/2) - i(wt - sin wt)] dw (composite "
+                               "Gauss-Legendre); real and imaginary part each to 1e-4"})
+        yield key, bad
+    # (b) 0 < T <= 5e-5 cutoff, sub-ohmic
+    for (alpha, zeta, wc, ct, tr, closed) in LOWEST_T_POINTS:
+        T = tr * wc
+        with stream("very low T"):
+            obj = PowerLawSD(alpha, zeta, wc, ct, T)
+            bad = None
+            if closed:
+                cf = 2 * alpha * wc ** (1 - zeta) * special.gamma(zeta + 1) * (
+                    wc ** (zeta + 1) + 2 * T ** (zeta + 1) * special.zeta(zeta + 1, 1 + T / wc))
+                c0 = complex(obj.correlation(0.0))
+                if abs(c0 - cf) > 1e-8 * abs(cf):
+                    bad = {"quantity": "correlation(0)", "library": [c0.real, c0.imag], "closed_form": cf,
+                           "closed form": "2 alpha wc^(1-zeta) Gamma(zeta+1) [wc^(zeta+1) + 2 T^(zeta+1) "
+                                          "zeta_Hurwitz(zeta+1, 1 + T/wc)]"}
+            if bad is None:
+                dt = 0.3 / wc
+                for (shape, t1, t2) in [("upper-triangle", 0.0, None), ("square", 2 * dt, None)]:
+                    v = complex(obj.correlation_2d_integral(dt, t1, t2, shape))
+                    d = direct_cell(obj.correlation, shape, dt, t1, t2, 7)
+                    terms = eta_terms(obj, shape, dt, t1, t2)
+                    if abs(v - d) > 1e-7 * abs(d) + 1e-9 * terms:
+                        bad = {"shape": shape, "delta": dt, "time_1": t1, "time_2": t2,
+                               "correlation_2d_integral": [v.real, v.imag],
+                               "direct_integration_of_correlation": [d.real, d.imag]}
+                        break
+        key = "0 < T <= 5e-5 cutoff, sub-ohmic: C(0) closed form and cells vs integration of " \
+              "correlation() (%s cutoff, zeta %g)" % (ct, zeta)
+        if bad is not None:
+            bad.update({"class": "PowerLawSD", "alpha": alpha, "zeta": zeta, "cutoff": wc, "cutoff_type": ct,
+                        "temperature": T})
+        yield key, bad
+
+
 class WarningLog:
     """counts scipy IntegrationWarnings raised inside oqupy/bath_correlations.py, per phase"""
 
@@ -1010,7 +1099,12 @@ def correspondence(res, tier, rng):
         res.count("low-T-matsubara")
         if bad is not None:
             res.disagree(key, bad)
-    mark("(g) scale covariance, memo tie, gapped j, low-T imaginary time")
+    for key, bad in oracle_tiny_and_cold(wlog, tier):
+        res.case(key + " #%d" % res.cases, True)
+        res.count("tiny-cells/very-low-T")
+        if bad is not None:
+            res.disagree(key, bad)
+    mark("(g) scale covariance, memo tie, gapped j, low-T imaginary time, tiny cells, very low T")
     phase("(a) shape calls")
 
     points = list(QUICK_POINTS)
@@ -1318,7 +1412,8 @@ def search(res, rng=None, budget_points=None):
         if bad is not None and key not in seen:
             seen.add(key)
             res.fail(key, bad)
-    for key, bad in oracle_low_T(WarningLog(), res.tier):
+    for key, bad in itertools_chain(oracle_low_T(WarningLog(), res.tier),
+                                    oracle_tiny_and_cold(WarningLog(), res.tier)):
         if bad is not None and key not in seen:
             seen.add(key)
             res.fail(key, bad)
@@ -1437,6 +1532,12 @@ def replay_case(res, payload):
                 res.fail(k, bad)
                 return True
         return False
+    if key.startswith(("T = 0, cells with delta*cutoff", "0 < T <= 5e-5 cutoff")):
+        for k, bad in oracle_tiny_and_cold(WarningLog(), "thorough"):
+            if bad is not None and k == key:
+                res.fail(k, bad)
+                return True
+        return False
     if key.startswith("imaginary time, T/cutoff"):
         for k, bad in oracle_low_T(WarningLog(), "thorough"):
             if bad is not None and k == key:
@@ -1509,7 +1610,10 @@ def run(tier, seed, replay):
         "correlation() and cells vs an independent composite Gauss-Legendre frequency integral "
         "of spectral_density(); imaginary time at T/cutoff in {0.05, 0.1, 0.2}: C_M(tau) = "
         "C_M(beta - tau) up to beta (1e-8) and the cells just below beta vs integration of the "
-        "Matsubara correlation (1e-7 of the cell + 1e-9 of the terms).  Distinct = distinct "
+        "Matsubara correlation (1e-7 of the cell + 1e-9 of the terms); T = 0 cells with "
+        "delta*cutoff in {1e-3, 1e-4, 1e-5} vs an independent cancellation-free frequency "
+        "integral (Re and Im each 1e-4); sub-ohmic zeta in {0.1, 0.5} at T/cutoff 5e-5 / 1e-5: "
+        "C(0) vs its Hurwitz-zeta closed form (1e-8) and cells vs integration of correlation().  Distinct = distinct "
         "protocol line / oracle call; non-trivial = a shape call that used >= 2 eta values, any "
         "integrand/oracle evaluation.")
     res.assumptions = [
@@ -1546,6 +1650,11 @@ def run(tier, seed, replay):
         "cutoffs and the diverging analytic continuation -- not the time-ordered C(|tau|) -- for "
         "the hard one), so there is no integrand to compare with; GibbsTempo requests the "
         "upper-triangle at 0 and squares at k*dt, k >= 1 only",
+        "at T/cutoff = 1e-5 (zeta = 0.1, exponential cutoff) the unchanged code misses the "
+        "thermal part of C(0) (6.7e-5 relative; the thermal peak at omega ~ T is narrower than "
+        "what the first Gauss-Kronrod panels resolve and the error estimate does not see it); "
+        "correlation() and the cells lose it alike, so the C(0) closed form is compared at "
+        "T/cutoff = 5e-5 only",
         "zeta < 0.2 at T > 0 (integrand singular like omega^(zeta-1)) is not sampled by the "
         "tolerance-based comparisons",
     ]
